@@ -59,6 +59,9 @@ def handle (j : Json) : R Json := do
     let d ← policy (← fld j "defaults")
     let (p, errs) := policyToEvaluate parseVersion labels d
     return Json.mkObj [("policy", jpolicy p), ("errs", Json.arr (errs.map (fun e => Json.arr #[jstr e.key, jstr e.bad])).toArray)]
+  | "switch" =>
+    let calls ← arrOf (fun b => b.getBool?) (fldD j "calls")
+    return Json.mkObj [("on", Json.bool (switchAfter false calls))]
   | "checkRev" =>
     let p ← pod (← fld j "pod")
     match revOf (strD j "id") (← natOf (← fld j "minor")) with
